@@ -131,8 +131,15 @@ class IncrementalCKY:
         """
         c = self._chart.get(prefix)
         if c is None:
-            c = self._compute_chart(prefix)
-            self._chart[prefix] = c
+            # Extend from the longest cached prefix one token at a time; recursing
+            # on prefix[:-1] overflows the stack for prefixes of a few hundred tokens.
+            k = len(prefix)
+            while k > 0 and prefix[:k] not in self._chart:
+                k -= 1
+            for n in range(k, len(prefix) + 1):
+                if prefix[:n] not in self._chart:
+                    self._chart[prefix[:n]] = self._compute_chart(prefix[:n])
+            c = self._chart[prefix]
         return c
 
     def _compute_chart(self, prefix):
